@@ -51,10 +51,10 @@ def run(ctx):
         "states": int(total.get("states", 0)), "transitions": int(total.get("transitions", 0)), "traces_validated_against_impl": int(total.get("evaluations", 0)),
         "evaluations": int(total.get("evaluations", 0)), "distinct_nontrivial": int(total.get("distinct_nontrivial", 0)),
         "catalogue_stacks": len(stacks), "samples": [iogen.stack_id(s) for s in stacks[::max(1, len(stacks) // 6)]][:8],
-        "rule": "serialisable catalogue = pairwise layer-adjacency cover of the grammar without harness backends (quick: 7 (N,M) pairs; thorough: all 16 plus every stack to depth 3), every layer and adjacency present; per stack three configuration variants "
-                "(ordinary; signed zeros / infinities / NaN / denormals / type extremes in every configuration blob; 1-cell extents) x stored bit patterns (+-0, subnormals, +-1, 1+ulp, +-MAX, +-inf, quiet and signalling NaNs with payloads) as all-cells rotations and "
+        "rule": "serialisable catalogue = pairwise layer-adjacency cover of the grammar without harness backends (quick: 7 (N,M) pairs; thorough: all 16 plus every stack to depth 3), every layer and adjacency present; per stack up to six configuration variants "
+                "(ordinary; signed zeros / infinities / NaN / denormals / type extremes in every configuration blob; 1-cell extents; empty field; a payload of several KiB; Morton / Hilbert storage cut off right after the largest reachable curve position) x stored bit patterns (+-0, subnormals, +-1, 1+ulp, +-MAX, +-inf, quiet and signalling NaNs with payloads) as all-cells rotations and "
                 "placed at every scalar position in turn (quick: the first six positions); states = distinct byte streams produced; transitions = dump / parse / load / re-dump steps; oracle: E7 automaton accepts the dump and consumes it entirely, "
-                "every layer's reloaded configuration is bit-identical field by field, every stored scalar bit-identical, re-dump byte-identical, load consumes exactly the dump; ASan/UBSan build and NDEBUG build",
+                "every layer's reloaded configuration is bit-identical field by field, every stored scalar bit-identical (flat cells, and looked up through the storage order's view at every lattice coordinate), re-dump byte-identical, load consumes exactly the dump; ASan/UBSan build and NDEBUG build",
     })
     ctx.assumptions += ["x86-64 SSE moves preserve NaN payloads", "little-endian host"]
 
